@@ -519,7 +519,12 @@ CUpd(c, rec) == /\ calls' = [calls EXCEPT ![c] = rec]
                 /\ UNCHANGED <<cfg, phase, byId, hi, gaps, cw, nSR, sw, nCR, cin, sin, preq, hnds, hOf,
                                flt, creg, sreg, base, pend, live, cregN, parked>>
 
-\* has the first envelope delivered for this unary call a usable success reply?
+\* End to end (C01, C03): did the handler of this call return success on a connection that is still healthy?
+\* Then nothing but the caller's own context may turn the call into a failure.
+HandlerOkHealthy(c) ==
+  /\ ~SrvDown /\ ~CliDown
+  /\ \E h \in DOMAIN hnds : hnds[h].c = c /\ c # 0 /\ hnds[h].ret /\ hnds[h].rc = OK /\ ~HCause(h)
+
 URet(c, res, code, msg, ndet, pay) ==
   /\ c \in DOMAIN calls /\ calls[c].kind = "unary" /\ ~calls[c].uret
   /\ LET x == Cin(calls[c].id) IN
@@ -528,6 +533,7 @@ URet(c, res, code, msg, ndet, pay) ==
         /\ G("status", x.fb = 1 /\ (x.fs = 0 \/ x.fcode = OK))
         /\ G("pay", pay = x.fpay)
      \/ /\ res = "err"
+        /\ G("status", HandlerOkHealthy(c) => CtxDone(c))
         /\ ( \/ CtxDone(c)
              \/ CliDown
              \/ /\ calls[c].id # "" /\ x.n > 0
@@ -586,6 +592,8 @@ SRecvRet(c, res, code, msg, ndet, pay, plain) ==
         /\ CUpd(c, [k EXCEPT !.term = "eof"])
      \/ /\ res = "err"
         /\ (code # OK \/ plain) = TRUE
+        /\ G("status", HandlerOkHealthy(c) => CtxDone(c) \/ k.sendFailed \/ x.fbad \/ k.term = "err"
+                                              \/ (plain /\ k.recvd < Len(x.bodies) /\ x.bodies[k.recvd + 1] = "raw!"))
         /\ ( \/ "status" \in Off
              \/ x.close = "err" /\ code = x.code /\ msg = x.msg /\ ndet = x.ndet   \* C03
              \* a reset explains an error - unless the handler of this very stream returned on a healthy
